@@ -42,7 +42,18 @@ let rec counted k s sock acc =
   match C.read_bytes s sock with
   | C.RaisedStructError -> String.concat " " (List.rev acc) ^ " | STRUCT_ERROR"
   | C.Read (b, s', sock') -> counted (k - 1) s' sock' (hex_of_bytes b :: acc)
+(* the reply loop of dmypy/client.py request(): frames until one whose JSON text has "final": true *)
+let string_of_bytes (b : C.n list) = String.init (List.length b) (let a = Array.of_list b in fun i -> Char.chr (int_of_n a.(i)))
+let contains (s : string) (sub : string) =
+  let n = String.length s and m = String.length sub in
+  let rec go i = i + m <= n && (String.sub s i m = sub || go (i + 1)) in go 0
+let is_final (b : C.n list) = contains (string_of_bytes b) "\"final\": true"
+let rec nat_of_int n = if n = 0 then C.O else C.S (nat_of_int (n - 1))
 let handle = function
+  | "f" :: k :: chunks ->
+      (match C.read_until_final is_final (nat_of_int (int_of_string k)) C.ipc_init (C.feed (List.map bytes_of_hex chunks)) with
+       | None -> "NONE"
+       | Some fr -> String.concat " " (List.map hex_of_bytes fr))
   | "u" :: chunks -> until C.ipc_init (C.feed (List.map bytes_of_hex chunks)) []
   | "n" :: k :: chunks -> counted (int_of_string k) C.ipc_init (C.feed (List.map bytes_of_hex chunks)) []
   | ["e"; b] -> hex_of_bytes (C.encode_frame (bytes_of_hex b))
